@@ -721,6 +721,10 @@ var corpus = []string{
 	`x=1;func f(){a=[x];x=2;a};f()`,
 	`1/0`, `1%0`, `1<<(-1)`, `1>>(-1)`, `catch(1/0).err`,
 	`"abc"[-5:2]`, `a=[1,2,3];a[-7:1]`, `"abc"[5:10]`, `[1,2,3][2:1]`,
+	`func counter(start){n=start; {"inc":()=>{n=n+1}, "get":()=>n}}; c1=counter(0); c2=counter(0); c1.inc(); c1.inc(); println(c1.get(), c2.get())`,
+	`func mk(){n=0; [()=>{n=n+1;n}, ()=>n]}; a=mk(); b=mk(); a[0](); a[0](); [a[1](), b[1]()]`,
+	`func mk(s){n=len(s); {"o":[()=>{n++}, ()=>n], "a":1,"b":2,"c":3,"d":4}}; a=mk("x"); b=mk("x"); c=mk("yy"); a.o[0](); [a.o[1](), b.o[1](), c.o[1]()]`,
+	`func mk(k){n=k; [()=>{n=n+1;n}, ()=>n, 1,2,3,4,5,6,7,8]}; objs=[]; for i=3{objs=objs+[mk(1)]}; objs[0][0](); [objs[0][1](), objs[1][1](), objs[2][1]()]`,
 	`a=[1,2,3,4,5,6,7,8,9]; a=a+10; b=a+11; c=a+12; b[-1]`,
 	`a=[1,2,3,4,5,6,7,8,9]; a=a+10; b=a+11; c=a+12; println(b, c, a)`,
 	`a=[1,2,3,4,5,6,7,8,9]; a=a+[10]; b=a+[11]; c=a+[12]; [b, c, a]`,
@@ -945,6 +949,19 @@ func runC01(c *Ctx) {
 			featTotal[f]++
 		}
 		r.one(src, "fork", g.feats)
+	}
+	// object factories: every call of a maker gives fresh closures over a fresh environment
+	nfact := 1500
+	if c.Thorough() {
+		nfact = 12000
+	}
+	for i := 0; i < nfact; i++ {
+		g := newGen(c.R, false)
+		src := g.factoryProgram()
+		for f := range g.feats {
+			featTotal[f]++
+		}
+		r.one(src, "factory", g.feats)
 	}
 	for i := 0; i < nwrap; i++ {
 		r.wrapOracle(newGen(c.R, false))
